@@ -118,12 +118,12 @@ def spec_check(line, toks):
     return None
 
 
-def run_expire_check(ctx, prop_id, n_random):
+def run_expire_check(ctx, prop_id, n_random, only=None):
     """returns coverage dict; records violations in ctx['rep']"""
     import random
     rep, info = ctx["rep"], ctx["info"]
     rnd = random.Random(ctx["seed"] + 4242)
-    lines = list(DIRECTED) + [gen_case(rnd) for _ in range(n_random)]
+    lines = (list(DIRECTED) + [gen_case(rnd) for _ in range(n_random)]) if only is None else [only]
     model, mcr = vlib.run_lines(info["model_routing"], lines)
     impl, icr = vlib.run_lines(info["routing_h"], lines)
     for line, err in icr:
